@@ -106,9 +106,18 @@ Proof.
     destruct (ph s) eqn:Eph; try discriminate;
       destruct (find j (works s)) as [[| | | |]|] eqn:Ef; try discriminate; destruct stage as [|[|?]]; try discriminate.
     all: pose proof (H2 _ _ Ef) as [Hm Ht].
-    all: try (destruct (has_term c) eqn:Eht; injection Hs as <-;
-              (eapply (A_setw c s); [exact HI|exact HO'|exact Ef|reflexivity|cbn; auto|reflexivity|reflexivity|cbn; congruence|]);
-              (split; [intros Y _; apply Hm; [exact Y|discriminate]|intros Y [Z|Z]; try discriminate; congruence])).
+    all: try (destruct (has_term c) eqn:Eht;
+              [ destruct err; [discriminate|]; injection Hs as <-;
+                (eapply (A_setw c s); [exact HI|exact HO'|exact Ef|reflexivity|cbn; auto|reflexivity|reflexivity|cbn; congruence|]);
+                (split; [intros Y _; apply Hm; [exact Y|discriminate]|intros Y [Z|Z]; discriminate])
+              | destruct err as [e|]; destruct (c_term c) eqn:Et; try discriminate; try (destruct (residual s) eqn:Er; try discriminate); injection Hs as <-;
+                first [ (eapply (A_setw c s); [exact HI|exact HO'|exact Ef|reflexivity|cbn; auto|reflexivity|cbn; congruence|cbn; congruence|]);
+                        (split; [intros Y _; apply Hm; [exact Y|discriminate]|intros Y _; congruence])
+                      | (split; [intros R; cbn in R; discriminate|];
+                         intros i y Hy; cbn [works upd_st calls] in *; destruct (Nat.eq_dec i j) as [->|Hne];
+                         [ rewrite find_setw_same in Hy by (eapply find_some_in; eauto); inversion Hy; subst y;
+                           split; [intros Y _; apply Hm; [exact Y|discriminate]|intros Y _; congruence]
+                         | rewrite find_setw_other in Hy by auto; apply H2; exact Hy ]) ] ]; fail).
     all: cbv zeta in Hs.
     all: set (s1 := set_works s (setw j WDone (works s))) in *.
     all: assert (O1 : OInv s1) by (eapply (H_setw s); [exact HO|exact Ef|reflexivity|reflexivity|reflexivity|left; reflexivity|cbn; tauto]).
@@ -169,6 +178,10 @@ Proof.
     - rewrite Hres in Hs. destruct (length (filter live (works s)) =? 0) eqn:E; [|discriminate]. apply Nat.eqb_eq in E. left. eapply all_done; eauto. destruct (filter live (works s)); [auto|discriminate].
     - rewrite Hres in Hs. discriminate.
     - destruct (_ && _) eqn:E; [|discriminate]. apply andb_true_iff in E as [_ E].
+      pose proof (forallb_find _ _ _ _ E Hx) as Y. cbn [snd] in Y. destruct x; try discriminate; auto.
+      right. unfold zero_stage, has_term in *. rewrite Et in *. apply andb_true_iff in Y as [Y1 _]. apply negb_true_iff in Y1. auto.
+    - rewrite Hres in Hs. discriminate.
+    - rewrite Hres in Hs. destruct (_ && _) eqn:E; [|discriminate]. apply andb_true_iff in E as [_ E].
       pose proof (forallb_find _ _ _ _ E Hx) as Y. cbn [snd] in Y. destruct x; try discriminate; auto.
       right. unfold zero_stage, has_term in *. rewrite Et in *. apply andb_true_iff in Y as [Y1 _]. apply negb_true_iff in Y1. auto. }
   destruct Hd as [->|(-> & Em & Et)].
